@@ -1,6 +1,7 @@
 // fuzz_catalog.cc -- C15 (e): the three catalogue list parsers through the guarded re-entry hook.
 // Oracle: exception, or entries that are non-empty tokens without blanks / modes with id>0, non-empty label; no hang.
 #include <set>
+#include <sstream>
 #include <map>
 #include <bxdecay0/bb_utils.h>
 #include "fuzzcommon.hpp"
@@ -21,6 +22,24 @@ static void check_names(const std::set<std::string> & s)
 {
   for (auto & n : s) { if (n.empty()) violation("catalogue parser produced an empty name"); for (char c : n) if (isspace((unsigned char)c)) violation("catalogue parser produced a name containing white space"); if (n[0] == '#') violation("catalogue parser produced a comment as a name"); }
 }
+// reference reading of a name list: one entry per line = its first white-space separated word, unless the line is blank or the word starts with '#'
+// (whatever the line terminator, and whether or not the last line ends with one)
+static std::set<std::string> ref_names(const uint8_t * d, size_t n)
+{
+  std::set<std::string> out; std::string text((const char *)d, n); size_t pos = 0;
+  while (pos <= text.size()) {
+    size_t e = text.find('\n', pos); if (e == std::string::npos) e = text.size();
+    std::istringstream is(text.substr(pos, e - pos)); std::string w; is >> w;
+    if (!w.empty() && w[0] != '#') out.insert(w);
+    pos = e + 1;
+  }
+  return out;
+}
+static void same_names(const std::set<std::string> & got, const std::set<std::string> & want)
+{
+  for (auto & n : want) if (!got.count(n)) violation("catalogue list parser dropped an entry of the file");
+  for (auto & n : got) if (!want.count(n)) violation("catalogue list parser produced an entry the file does not hold");
+}
 extern "C" int LLVMFuzzerTestOneInput(const uint8_t * data, size_t size)
 {
   init_once();
@@ -29,8 +48,8 @@ extern "C" int LLVMFuzzerTestOneInput(const uint8_t * data, size_t size)
   static const char * fn[] = {"dbd_isotopes.lis", "background_isotopes.lis", "dbd_modes.lis"};
   write_file(g_base + "/description/" + fn[which], data, size);
   try {
-    if (which == 0) { auto s = bxdecay0::verif::reparse_dbd_isotopes(); check_names(s); labels()["dbd_list_parsed"]++; if (!s.empty()) labels()["dbd_list_nonempty"]++; }
-    else if (which == 1) { auto s = bxdecay0::verif::reparse_background_isotopes(); check_names(s); labels()["bkg_list_parsed"]++; if (!s.empty()) labels()["bkg_list_nonempty"]++; }
+    if (which == 0) { auto s = bxdecay0::verif::reparse_dbd_isotopes(); check_names(s); same_names(s, ref_names(data, size)); labels()["dbd_list_parsed"]++; if (!s.empty()) labels()["dbd_list_nonempty"]++; }
+    else if (which == 1) { auto s = bxdecay0::verif::reparse_background_isotopes(); check_names(s); same_names(s, ref_names(data, size)); labels()["bkg_list_parsed"]++; if (!s.empty()) labels()["bkg_list_nonempty"]++; }
     else {
       auto m = bxdecay0::verif::reparse_dbd_modes(); labels()["modes_parsed"]++; if (!m.empty()) labels()["modes_nonempty"]++;
       for (auto & kv : m) { if ((int)kv.first <= 0) violation("mode table entry with id <= 0"); if (kv.second.unique_label.empty()) violation("mode table entry with empty label"); if (kv.second.dbd_mode != kv.first) violation("mode table key differs from record id");
